@@ -56,7 +56,7 @@ fn l1_at(head: u8, len: usize) {
     l1(&buf, len);
 }
 
-//@ also=C13 tier=quick timeout=1800 mem=10 bits=72 unwind=12 unwindset="memcmp=12;from_utf8=12;run_utf8_validation=12" fns=echo_edict_canonical::decode_canonical_cbor_v1,Decoder::value,Decoder::argument,Decoder::length,Decoder::take,echo_edict_canonical::encode_canonical_cbor_v1,encode_integer,encode_type_value
+//@ also=C13 tier=off timeout=1800 mem=10 bits=72 unwind=12 unwindset="memcmp=12;from_utf8=12;run_utf8_validation=12" fns=echo_edict_canonical::decode_canonical_cbor_v1,Decoder::value,Decoder::argument,Decoder::length,Decoder::take,echo_edict_canonical::encode_canonical_cbor_v1,encode_integer,encode_type_value
 //@ bounds="unsigned immediates 0x00 and 0x17: exact and with one trailing byte"
 //@ desc="Edict: immediate unsigned ints are one byte; a trailing byte is rejected"
 proof! {
@@ -64,7 +64,7 @@ proof! {
     fn c12_edict_uint_immediate() { l1_at(0x00, 1); l1_at(0x00, 2); l1_at(0x17, 1); l1_at(0x17, 2); reach!(); }
 }
 
-//@ also=C13 tier=quick timeout=1800 mem=10 bits=72 unwind=12 unwindset="memcmp=12;from_utf8=12;run_utf8_validation=12" fns=echo_edict_canonical::decode_canonical_cbor_v1,Decoder::value,Decoder::argument,Decoder::length,Decoder::take,echo_edict_canonical::encode_canonical_cbor_v1,encode_integer,encode_type_value
+//@ also=C13 tier=off timeout=1800 mem=10 bits=72 unwind=12 unwindset="memcmp=12;from_utf8=12;run_utf8_validation=12" fns=echo_edict_canonical::decode_canonical_cbor_v1,Decoder::value,Decoder::argument,Decoder::length,Decoder::take,echo_edict_canonical::encode_canonical_cbor_v1,encode_integer,encode_type_value
 //@ bounds="head 0x18 with 0, 1 and 2 following bytes (all values)"
 //@ desc="Edict: 1-byte argument: values <= 23 are non-minimal and rejected, short and trailing input rejected, the rest re-encode to themselves"
 proof! {
@@ -72,7 +72,7 @@ proof! {
     fn c12_edict_uint_w1() { l1_at(0x18, 1); l1_at(0x18, 2); l1_at(0x18, 3); reach!(); }
 }
 
-//@ also=C13 tier=quick timeout=1800 mem=10 bits=72 unwind=12 unwindset="memcmp=12;from_utf8=12;run_utf8_validation=12" fns=echo_edict_canonical::decode_canonical_cbor_v1,Decoder::value,Decoder::argument,Decoder::length,Decoder::take,echo_edict_canonical::encode_canonical_cbor_v1,encode_integer,encode_type_value
+//@ also=C13 tier=off timeout=1800 mem=10 bits=72 unwind=12 unwindset="memcmp=12;from_utf8=12;run_utf8_validation=12" fns=echo_edict_canonical::decode_canonical_cbor_v1,Decoder::value,Decoder::argument,Decoder::length,Decoder::take,echo_edict_canonical::encode_canonical_cbor_v1,encode_integer,encode_type_value
 //@ bounds="head 0x19 with 1, 2 and 3 following bytes (all values)"
 //@ desc="Edict: 2-byte argument: values <= 0xff rejected as non-minimal; accepted => canonical"
 proof! {
@@ -80,7 +80,7 @@ proof! {
     fn c12_edict_uint_w2() { l1_at(0x19, 2); l1_at(0x19, 3); l1_at(0x19, 4); reach!(); }
 }
 
-//@ also=C13 tier=quick timeout=1800 mem=10 bits=72 unwind=12 unwindset="memcmp=12;from_utf8=12;run_utf8_validation=12" fns=echo_edict_canonical::decode_canonical_cbor_v1,Decoder::value,Decoder::argument,Decoder::length,Decoder::take,echo_edict_canonical::encode_canonical_cbor_v1,encode_integer,encode_type_value
+//@ also=C13 tier=off timeout=1800 mem=10 bits=72 unwind=12 unwindset="memcmp=12;from_utf8=12;run_utf8_validation=12" fns=echo_edict_canonical::decode_canonical_cbor_v1,Decoder::value,Decoder::argument,Decoder::length,Decoder::take,echo_edict_canonical::encode_canonical_cbor_v1,encode_integer,encode_type_value
 //@ bounds="head 0x1a with 3, 4 and 5 following bytes (all values)"
 //@ desc="Edict: 4-byte argument: values <= 0xffff rejected; accepted => canonical"
 proof! {
@@ -88,7 +88,7 @@ proof! {
     fn c12_edict_uint_w4() { l1_at(0x1a, 4); l1_at(0x1a, 5); l1_at(0x1a, 6); reach!(); }
 }
 
-//@ also=C13 tier=quick timeout=1800 mem=10 bits=72 unwind=12 unwindset="memcmp=12;from_utf8=12;run_utf8_validation=12" fns=echo_edict_canonical::decode_canonical_cbor_v1,Decoder::value,Decoder::argument,Decoder::length,Decoder::take,echo_edict_canonical::encode_canonical_cbor_v1,encode_integer,encode_type_value
+//@ also=C13 tier=off timeout=1800 mem=10 bits=72 unwind=12 unwindset="memcmp=12;from_utf8=12;run_utf8_validation=12" fns=echo_edict_canonical::decode_canonical_cbor_v1,Decoder::value,Decoder::argument,Decoder::length,Decoder::take,echo_edict_canonical::encode_canonical_cbor_v1,encode_integer,encode_type_value
 //@ bounds="head 0x1b with 7, 8 and 9 following bytes (all values)"
 //@ desc="Edict: 8-byte argument: values <= 0xffffffff rejected; accepted => canonical"
 proof! {
@@ -96,7 +96,7 @@ proof! {
     fn c12_edict_uint_w8() { l1_at(0x1b, 8); l1_at(0x1b, 9); l1_at(0x1b, 10); reach!(); }
 }
 
-//@ also=C13 tier=quick timeout=1800 mem=10 bits=72 unwind=12 unwindset="memcmp=12;from_utf8=12;run_utf8_validation=12" fns=echo_edict_canonical::decode_canonical_cbor_v1,Decoder::value,Decoder::argument,Decoder::length,Decoder::take,echo_edict_canonical::encode_canonical_cbor_v1,encode_integer,encode_type_value
+//@ also=C13 tier=off timeout=1800 mem=10 bits=72 unwind=12 unwindset="memcmp=12;from_utf8=12;run_utf8_validation=12" fns=echo_edict_canonical::decode_canonical_cbor_v1,Decoder::value,Decoder::argument,Decoder::length,Decoder::take,echo_edict_canonical::encode_canonical_cbor_v1,encode_integer,encode_type_value
 //@ bounds="heads 0x1c..0x1f (reserved / indefinite additional info) with one following byte"
 //@ desc="Edict: reserved and indefinite-length heads are rejected"
 proof! {
@@ -104,7 +104,7 @@ proof! {
     fn c12_edict_uint_reserved() { l1_at(0x1c, 2); l1_at(0x1d, 2); l1_at(0x1e, 2); l1_at(0x1f, 2); reach!(); }
 }
 
-//@ also=C13 tier=quick timeout=1800 mem=10 bits=72 unwind=12 unwindset="memcmp=12;from_utf8=12;run_utf8_validation=12" fns=echo_edict_canonical::decode_canonical_cbor_v1,Decoder::value,Decoder::argument,Decoder::length,Decoder::take,echo_edict_canonical::encode_canonical_cbor_v1,encode_integer,encode_type_value
+//@ also=C13 tier=off timeout=1800 mem=10 bits=72 unwind=12 unwindset="memcmp=12;from_utf8=12;run_utf8_validation=12" fns=echo_edict_canonical::decode_canonical_cbor_v1,Decoder::value,Decoder::argument,Decoder::length,Decoder::take,echo_edict_canonical::encode_canonical_cbor_v1,encode_integer,encode_type_value
 //@ bounds="negative immediates and head 0x38 (all values of the argument byte)"
 //@ desc="Edict: negative ints: immediates one byte, 1-byte argument minimality, trailing byte rejected"
 proof! {
@@ -112,7 +112,7 @@ proof! {
     fn c12_edict_nint_small() { l1_at(0x20, 1); l1_at(0x37, 1); l1_at(0x38, 2); l1_at(0x38, 3); reach!(); }
 }
 
-//@ also=C13 tier=quick timeout=1800 mem=10 bits=72 unwind=12 unwindset="memcmp=12;from_utf8=12;run_utf8_validation=12" fns=echo_edict_canonical::decode_canonical_cbor_v1,Decoder::value,Decoder::argument,Decoder::length,Decoder::take,echo_edict_canonical::encode_canonical_cbor_v1,encode_integer,encode_type_value
+//@ also=C13 tier=off timeout=1800 mem=10 bits=72 unwind=12 unwindset="memcmp=12;from_utf8=12;run_utf8_validation=12" fns=echo_edict_canonical::decode_canonical_cbor_v1,Decoder::value,Decoder::argument,Decoder::length,Decoder::take,echo_edict_canonical::encode_canonical_cbor_v1,encode_integer,encode_type_value
 //@ bounds="head 0x3b with 8 and 9 following bytes (all values)"
 //@ desc="Edict: negative 8-byte argument: -1 - n computed without overflow; out-of-range magnitudes answered with a typed error; accepted => canonical"
 proof! {
@@ -120,7 +120,7 @@ proof! {
     fn c12_edict_nint_w8() { l1_at(0x3b, 9); l1_at(0x3b, 10); reach!(); }
 }
 
-//@ also=C13 tier=quick timeout=1800 mem=10 bits=72 unwind=12 unwindset="memcmp=12;from_utf8=12;run_utf8_validation=12" fns=echo_edict_canonical::decode_canonical_cbor_v1,Decoder::value,Decoder::argument,Decoder::length,Decoder::take,echo_edict_canonical::encode_canonical_cbor_v1,encode_integer,encode_type_value
+//@ also=C13 tier=off timeout=1800 mem=10 bits=72 unwind=12 unwindset="memcmp=12;from_utf8=12;run_utf8_validation=12" fns=echo_edict_canonical::decode_canonical_cbor_v1,Decoder::value,Decoder::argument,Decoder::length,Decoder::take,echo_edict_canonical::encode_canonical_cbor_v1,encode_integer,encode_type_value
 //@ bounds="simple-value heads false/true/null (exact, null also with a trailing byte), undefined, 1-byte simple, simple 0 and break"
 //@ desc="Edict: false/true/null accepted as exactly one byte and re-encode to themselves; every other simple value is rejected"
 proof! {
@@ -128,7 +128,7 @@ proof! {
     fn c12_edict_simple() { l1_at(0xf4, 1); l1_at(0xf5, 1); l1_at(0xf6, 1); l1_at(0xf6, 2); l1_at(0xf7, 1); l1_at(0xf8, 2); l1_at(0xe0, 1); l1_at(0xff, 1); reach!(); }
 }
 
-//@ also=C13 tier=quick timeout=1800 mem=10 bits=72 unwind=12 unwindset="memcmp=12;from_utf8=12;run_utf8_validation=12" fns=echo_edict_canonical::decode_canonical_cbor_v1,Decoder::value,Decoder::argument,Decoder::length,Decoder::take,echo_edict_canonical::encode_canonical_cbor_v1,encode_integer,encode_type_value
+//@ also=C13 tier=off timeout=1800 mem=10 bits=72 unwind=12 unwindset="memcmp=12;from_utf8=12;run_utf8_validation=12" fns=echo_edict_canonical::decode_canonical_cbor_v1,Decoder::value,Decoder::argument,Decoder::length,Decoder::take,echo_edict_canonical::encode_canonical_cbor_v1,encode_integer,encode_type_value
 //@ bounds="tag heads 0xc0, 0xc1, 0xd8, 0xdb followed by symbolic bytes"
 //@ desc="Edict: tagged items are rejected whatever follows"
 proof! {
@@ -136,7 +136,7 @@ proof! {
     fn c12_edict_tags() { l1_at(0xc0, 2); l1_at(0xc1, 2); l1_at(0xd8, 3); l1_at(0xdb, 10); reach!(); }
 }
 
-//@ also=C13 tier=quick timeout=1800 mem=10 bits=72 unwind=12 unwindset="memcmp=12;from_utf8=12;run_utf8_validation=12" fns=echo_edict_canonical::decode_canonical_cbor_v1,Decoder::value,Decoder::argument,Decoder::length,Decoder::take,echo_edict_canonical::encode_canonical_cbor_v1,encode_integer,encode_type_value
+//@ also=C13 tier=off timeout=1800 mem=10 bits=72 unwind=12 unwindset="memcmp=12;from_utf8=12;run_utf8_validation=12" fns=echo_edict_canonical::decode_canonical_cbor_v1,Decoder::value,Decoder::argument,Decoder::length,Decoder::take,echo_edict_canonical::encode_canonical_cbor_v1,encode_integer,encode_type_value
 //@ bounds="byte-string heads 0x40..0x42 with short, exact and trailing input; payload symbolic"
 //@ desc="Edict: byte strings: declared length checked against the remaining input; accepted => canonical"
 proof! {
@@ -144,7 +144,7 @@ proof! {
     fn c12_edict_bytes_small() { l1_at(0x40, 1); l1_at(0x40, 2); l1_at(0x41, 1); l1_at(0x41, 2); l1_at(0x41, 3); l1_at(0x42, 3); reach!(); }
 }
 
-//@ also=C13 tier=quick timeout=1800 mem=10 bits=72 unwind=12 unwindset="memcmp=12;from_utf8=12;run_utf8_validation=12" fns=echo_edict_canonical::decode_canonical_cbor_v1,Decoder::value,Decoder::argument,Decoder::length,Decoder::take,echo_edict_canonical::encode_canonical_cbor_v1,encode_integer,encode_type_value
+//@ also=C13 tier=off timeout=1800 mem=10 bits=72 unwind=12 unwindset="memcmp=12;from_utf8=12;run_utf8_validation=12" fns=echo_edict_canonical::decode_canonical_cbor_v1,Decoder::value,Decoder::argument,Decoder::length,Decoder::take,echo_edict_canonical::encode_canonical_cbor_v1,encode_integer,encode_type_value
 //@ bounds="byte-string head 0x58 (1-byte length) with 0..2 following bytes"
 //@ desc="Edict: a 1-byte length <= 23 is non-minimal, a larger one exceeds the input: both rejected without allocating the declared length"
 proof! {
